@@ -442,6 +442,8 @@ REAL_IMPLS = {
     'sbe': lambda n, v: v.to_bytes(n, 'big', signed=True)
     if 0 <= n < 5000 and (v == 0 if n == 0 else -(1 << (8 * n - 1)) <= v < (1 << (8 * n - 1))) else None,
     'sunbe': lambda b: int.from_bytes(bytes(b), 'big', signed=True),
+    # unsigned reading of an arbitrary-length string (the byte-level definitions only cover widths 1, 2, 4, 8)
+    'unbe': lambda b: int.from_bytes(bytes(b), 'big'),
     'lower_s': lambda s_: s_.lower(), 'strip_s': lambda s_: s_.strip(),
     'int_literal_ok_s': lambda s_: _int_literal(s_) is not None,
     'int_literal_val_s': lambda s_: _int_literal(s_),
